@@ -26,25 +26,29 @@ fn sync_dir(p: &str) -> Op {
 }
 
 pub fn c10() -> Vec<(&'static str, Vec<Op>)> {
+    use crate::ops::{Flags, Step};
     vec![
+        // zone `recreate` (DESIGN §7 F10, first half)
         (
-            "F10a-remove-recreate",
-            vec![w("/a", 4, 0), rm("/a"), w("/a", 1, 1)],
+            "recreate-after-remove",
+            vec![
+                w("/a", 4, 0),
+                rm("/a"),
+                Op::Handle {
+                    p: "/a".into(),
+                    fl: Flags::parse("wc"),
+                    steps: vec![Step::Write { n: 1, key: 1 }],
+                    fe: Fe::Std,
+                },
+            ],
         ),
+        // zone `rename-dir` (DESIGN §7 F10, second half)
         (
-            "F10b-rename-unsynced-dir",
+            "rename-unsynced-dir",
             vec![mkdir("/d"), w("/d/a", 2, 0), mv("/d", "/b")],
         ),
         (
-            "write-after-rename",
-            vec![w("/a", 4, 0), mv("/a", "/b"), wat("/b", 0, 2, 25)],
-        ),
-        (
-            "rename-onto-existing",
-            vec![w("/a", 4, 0), w("/b", 6, 3), mv("/a", "/b")],
-        ),
-        (
-            "synced-then-rename-dir",
+            "rename-synced-dir",
             vec![
                 mkdir("/d"),
                 w("/d/a", 2, 0),
@@ -52,6 +56,90 @@ pub fn c10() -> Vec<(&'static str, Vec<Op>)> {
                 sync_dir("/d"),
                 sync_dir("/"),
                 mv("/d", "/b"),
+            ],
+        ),
+        // zone `rename-pending-data`
+        (
+            "rename-file-with-unsynced-data",
+            vec![w("/a", 4, 0), sync_dir("/"), mv("/a", "/b"), sync_dir("/")],
+        ),
+        // zone `write-after-rename`
+        (
+            "write-after-unsynced-rename",
+            vec![
+                w("/a", 4, 0),
+                sync_all("/a"),
+                sync_dir("/"),
+                mv("/a", "/b"),
+                wat("/b", 0, 2, 25),
+            ],
+        ),
+        // zone `rename-unsynced-create-cross-dir`
+        (
+            "rename-new-file-into-other-dir",
+            vec![
+                mkdir("/d"),
+                Op::Open {
+                    p: "/a".into(),
+                    fl: Flags::parse("wc"),
+                    fe: Fe::Std,
+                },
+                mv("/a", "/d/a"),
+                sync_dir("/d"),
+            ],
+        ),
+        // these conform (kept as fixed regression scenarios for the fix commits)
+        (
+            "rename-onto-existing-synced",
+            vec![
+                w("/a", 4, 0),
+                w("/b", 6, 3),
+                sync_all("/a"),
+                sync_all("/b"),
+                sync_dir("/"),
+                mv("/a", "/b"),
+                sync_dir("/"),
+            ],
+        ),
+        (
+            "truncate-then-extend",
+            vec![Op::Handle {
+                p: "/a".into(),
+                fl: Flags::parse("rwc"),
+                steps: vec![
+                    Step::Write { n: 4, key: 0 },
+                    Step::SetLen { len: 0 },
+                    Step::WriteAt { off: 2, n: 1, key: 1 },
+                    Step::ReadAt { off: 0, n: 8 },
+                ],
+                fe: Fe::Std,
+            }],
+        ),
+        ("rename-onto-itself", vec![w("/a", 1, 0), mv("/a", "/a")]),
+        ("rename-dir-into-itself", vec![mkdir("/d"), mv("/d", "/d/a")]),
+        (
+            "open-create-on-directory",
+            vec![
+                mkdir("/d"),
+                Op::Open {
+                    p: "/d".into(),
+                    fl: Flags::parse("wc"),
+                    fe: Fe::Std,
+                },
+            ],
+        ),
+        (
+            "remove-dir-with-renamed-in-child",
+            vec![
+                mkdir("/d"),
+                w("/a", 1, 0),
+                sync_all("/a"),
+                sync_dir("/"),
+                mv("/a", "/d/a"),
+                Op::RemoveDir {
+                    p: "/d".into(),
+                    fe: Fe::Std,
+                },
             ],
         ),
     ]
